@@ -2,6 +2,7 @@
 class-level part of C06 (generated vs interpretive)."""
 from __future__ import annotations
 
+import copy
 import random
 import re
 
@@ -578,12 +579,105 @@ def check_c09(v: Verdict, t1_summary, n_scen, n_inst):
                             {"lane": "C09/namedtuple", "dv": dv, "instance": repr(inst), "unstructured": out})
 
     c09_key_modes_battery(v, hist)
+    c09_namedtuple_battery(v, hist, rng, max(40, n_scen))
     hist["_intern"] = intern
     td_lane(v, t1_summary, "C09", max(10, n_scen // 2), 4, cases, meta, hist)
     del hist["_intern"]
     bad = run_tpl_model(v, f"c09_{v.seed}", cases, flags, "TPL/C09", intern)
     report_bad(v, bad, cases, meta, flags, "TPL/C09 (generated unstructure template: model dict = implementation dict)", intern)
     v.coverage["input_distribution"] = hist
+
+
+def c09_namedtuple_battery(v, hist, rng, n):
+    """generated NamedTuples (1-4 fields; trailing defaults drawn from falsy AND truthy values: 0, None, "", False, 0.0, (), 5, "d",
+    True) x customisation (converter-wide omit_if_default, per-field override(omit_if_default / rename / omit)) x both validation
+    modes: the dict hooks of cattrs.cols emit exactly the configured key set and the structure hook built with the same
+    customisation restores the instance on every included field"""
+    import collections
+    from typing import List, Optional
+    from cattrs.cols import namedtuple_dict_structure_factory, namedtuple_dict_unstructure_factory
+    from cattrs.gen import override
+    LEAF = [(int, [0, 5, -1]), (str, ["", "d", "xy"]), (float, [0.0, 1.5]), (bool, [False, True]), (Optional[int], [None, 0, 3]),
+            (List[int], [[], [1, 2]]), (tuple, [(), (1,)])]
+    NO = object()
+    hist["namedtuple_generated"] = 0
+    hist["namedtuple_falsy_defaults"] = 0
+    for i in range(n):
+        k = rng.randint(1, 4)
+        n_def = rng.randint(0, k)
+        fields = []
+        for j in range(k):
+            ty, vals = rng.choice(LEAF)
+            d = NO
+            if j >= k - n_def:
+                while ty is List[int]:              # defaults are shared objects: no mutable ones
+                    ty, vals = rng.choice(LEAF)
+                d = rng.choice(vals)
+                hist["namedtuple_falsy_defaults"] += not d
+            fields.append((f"f{j}", ty, vals, d))
+        NTc = collections.namedtuple(f"GNT{i}", [f[0] for f in fields], defaults=[f[3] for f in fields if f[3] is not NO])
+        NTc.__annotations__ = {f[0]: f[1] for f in fields}
+        flag = rng.random() < 0.5
+        ov, plan = {}, {}
+        for name, ty, vals, d in fields:
+            r = rng.random()
+            o = {}
+            if r < 0.2:
+                o["rename"] = name + "_r"
+            if d is not NO and rng.random() < 0.35:
+                o["omit_if_default"] = rng.random() < 0.6
+            if d is not NO and rng.random() < 0.12:
+                o = {"omit": True}
+            if o:
+                ov[name] = override(**o)
+            plan[name] = o
+        hist["namedtuple_generated"] += 1
+        for dv in (True, False):
+            conv = Converter(detailed_validation=dv)
+            desc = {"lane": "C09/namedtuple-generated", "dv": dv, "fields": [(f[0], str(f[1]), "no default" if f[3] is NO else repr(f[3])) for f in fields],
+                    "omit_if_default": flag, "overrides": {k2: o for k2, o in plan.items() if o}}
+            try:
+                nu = namedtuple_dict_unstructure_factory(NTc, conv, flag, True, **ov)
+                ns = namedtuple_dict_structure_factory(NTc, conv, "from_converter", False, True, **ov)
+            except Exception as e:
+                v.violation("NamedTuple dict hooks: generation failed for a consistent customisation", {**desc, "error": repr(e)})
+                continue
+            for _ in range(4):
+                kw = {}
+                for name, ty, vals, d in fields:
+                    if d is NO or rng.random() < 0.5:
+                        kw[name] = copy.deepcopy(rng.choice(vals))
+                inst = NTc(**kw)
+                v.count(repr((desc, repr(inst))), True)
+                exp = {}
+                for name, ty, vals, d in fields:
+                    o = plan[name]
+                    if o.get("omit"):
+                        continue
+                    oid = o.get("omit_if_default", flag)
+                    val = getattr(inst, name)
+                    if oid and d is not NO and val == d:
+                        continue
+                    exp[o.get("rename", name)] = list(val) if type(val) is tuple else val
+                try:
+                    out = nu(inst)
+                except Exception as e:
+                    v.violation("NamedTuple dict unstructure hook raised", {**desc, "instance": repr(inst), "error": repr(e)})
+                    continue
+                norm = {k2: (list(x) if type(x) is tuple else x) for k2, x in out.items()}
+                if norm != exp:
+                    v.violation("NamedTuple dict unstructure hook does not emit exactly the configured key set",
+                                {**desc, "instance": repr(inst), "unstructured": repr(out), "expected": repr(exp)})
+                    continue
+                try:
+                    back = ns(copy.deepcopy(out), NTc)
+                except Exception as e:
+                    v.violation("NamedTuple dict structure hook rejects what the unstructure hook emitted", {**desc, "instance": repr(inst), "unstructured": repr(out), "error": repr(e)})
+                    continue
+                want = inst._replace(**{name: d for name, ty, vals, d in fields if plan[name].get("omit")})
+                if type(back) is not NTc or tuple(back) != tuple(want):
+                    v.violation("NamedTuple dict hooks with the same customisation do not restore the instance",
+                                {**desc, "instance": repr(inst), "unstructured": repr(out), "structured_back": repr(back)})
 
 
 def c09_key_modes_battery(v, hist):
